@@ -394,6 +394,16 @@ func (o *oracle) blockTransition(cidr string, nb *blockShadow, wr store.Write, s
 		}
 		r.Eval()
 	}
+	// C22: "a block is released by its owner only when it holds no allocations (if required)"
+	if o.armed("C22") && old != nil && old.affinity != "" && (nb == nil || nb.affinity == "") && op != nil && op.requireEmpty {
+		live := 0
+		for _, st := range old.ords {
+			if st.kind == kAlloc {
+				live++
+			}
+		}
+		r.Check("affinity_released_only_when_empty", live == 0, "%s gave up the affinity %s of block %s although the block held %d live allocations and the operation requires the block to be empty", describeOp(op), old.affinity, cidr, live)
+	}
 	if nb == nil {
 		delete(o.blocks, cidr)
 		r.Probe("block_deleted")
